@@ -19,6 +19,7 @@ type memLoc struct {
 	lastSite int
 	lastW    bool
 	reported bool
+	keep     any // keeps the object alive so that its address is not reused within the run
 }
 
 var atomicPseudoLock = new(int)
@@ -44,7 +45,7 @@ func memAccess(site int, p any, write, atomic bool) {
 	defer s.mu.Unlock()
 	l := s.memState[addr]
 	if l == nil {
-		l = &memLoc{}
+		l = &memLoc{keep: p}
 		s.memState[addr] = l
 	}
 	held := map[any]bool{}
